@@ -1325,7 +1325,7 @@ class TupleParser:
         array_size = attrl.get('ARRAYSIZE', None)
         if array_size is not None:
             # Issue #1044: Clarify if hex support is needed.
-            array_size = int(array_size)
+            array_size = self.unpack_arraysize(tup_tree, array_size)
 
         scopes = None
         value = None
@@ -1519,7 +1519,7 @@ class TupleParser:
         array_size = attrl.get('ARRAYSIZE', None)
         if array_size is not None:
             # Issue #1044: Clarify if hex support is needed.
-            array_size = int(array_size)
+            array_size = self.unpack_arraysize(tup_tree, array_size)
 
         embedded_object = False
         if 'EmbeddedObject' in attrl or 'EMBEDDEDOBJECT' in attrl:
@@ -1726,7 +1726,7 @@ class TupleParser:
         array_size = attrl.get('ARRAYSIZE', None)
         if array_size is not None:
             # Issue #1044: Clarify if hex support is needed
-            array_size = int(array_size)
+            array_size = self.unpack_arraysize(tup_tree, array_size)
 
         qualifiers = self.list_of_matching(tup_tree, ('QUALIFIER',))
 
@@ -1765,7 +1765,7 @@ class TupleParser:
         array_size = attrl.get('ARRAYSIZE', None)
         if array_size is not None:
             # Issue #1044: Clarify if hex support is needed
-            array_size = int(array_size)
+            array_size = self.unpack_arraysize(tup_tree, array_size)
 
         qualifiers = self.list_of_matching(tup_tree, ('QUALIFIER',))
 
@@ -2405,6 +2405,20 @@ class TupleParser:
                     for data in raw_val]
 
         return self.unpack_single_value(raw_val, valtype)
+
+    def unpack_arraysize(self, tup_tree, array_size):
+        """
+        Return the value of an ARRAYSIZE attribute as an integer.
+        """
+        try:
+            return int(array_size)
+        except ValueError:
+            new_exc = CIMXMLParseError(
+                _format("Element {0!A} has an invalid value {1!A} for its "
+                        "'ARRAYSIZE' attribute", name(tup_tree), array_size),
+                conn_id=self.conn_id)
+            new_exc.__cause__ = None
+            raise new_exc
 
     def unpack_single_value(self, data, cimtype):
         """
